@@ -439,7 +439,11 @@ func (r *Reconciler) Reconcile(ctx context.Context, req reconcile.Request) (reco
 		}
 
 		log.Debug("Successfully deleted claim")
-		cm.SetConditions(xpv1.ReconcileSuccess())
+		// Removing the finalizer updates the claim, which replaces our
+		// in-memory copy (and its status) with the API server's response. Set
+		// the Deleting condition again so that it's not lost if something else
+		// (e.g. another finalizer) keeps the claim around.
+		cm.SetConditions(xpv1.Deleting(), xpv1.ReconcileSuccess())
 		return reconcile.Result{Requeue: false}, errors.Wrap(r.client.Status().Update(ctx, cm), errUpdateClaimStatus)
 	}
 
